@@ -115,4 +115,31 @@ JsonDoc(n) == [type |-> n.ty, value |-> HexStr(n.val), obfuscation |-> n.obf, st
 RECURSIVE FromDoc(_)
 FromDoc(d) == [ty |-> d.type, obf |-> d.obfuscation, val |-> UnhexStr(d.value), s |-> d.start, e |-> d.end,
                kids |-> [i \in 1..Len(d.children) |-> FromDoc(d.children[i])]]
+
+---------------------------------------------------------------------------
+(* Node / query API that no listed property names (judged by TreeTrace as clauses api.*; a mismatch is reported as
+   a note, never as a violation of a listed property) *)
+\* Node.original with intact parent links: the text of the parent that the node stands for; the root's own value
+Original(root, path) == IF path = <<>> THEN root.val ELSE Covered(At(root, SubSeq(path, 1, Len(path) - 1)), At(root, path))
+Originals(root) == LET ps == PrePaths(root, <<>>) IN [i \in 1..Len(ps) |-> Original(root, ps[i])]
+\* Node.shift / node.shift_nodes: start and end move by k, nothing else changes (children keep their parent-relative spans)
+Shifted(n, k) == [n EXCEPT !.s = @ + k, !.e = @ + k]
+ShiftFirst(root, k) == IF root.kids = <<>> THEN root ELSE [root EXCEPT !.kids = <<Shifted(root.kids[1], k)>> \o Tail(root.kids)]
+ShiftAll(root, k) == [root EXCEPT !.kids = [i \in 1..Len(root.kids) |-> Shifted(root.kids[i], k)]]
+\* query.invert_tree(forest): the descendants of every listed node in pre-order - the listed nodes themselves are absent
+InvertPaths(root) == LET RECURSIVE Cat(_)
+                         Cat(i) == IF i > Len(root.kids) THEN <<>> ELSE PrePaths(root.kids[i], <<i>>) \o Cat(i + 1)
+                     IN Cat(1)
+\* query.obfuscation_counts(forest), AS CODED: Counter.update(label) is given a string, so what is counted are the
+\* characters of the non-empty labels of all nodes; ObfCountsIntended is what its deprecation notice describes
+\* (one count per non-empty label).  The two agree only when every label is a single character.
+Chars(bs) == LET starts == {i \in 1..Len(bs) : bs[i] < 128 \/ bs[i] >= 192}          \* UTF-8: a character starts at every non-continuation byte
+                 nxt(i) == LET later == {j \in starts : j > i} IN IF later = {} THEN Len(bs) + 1 ELSE CHOOSE j \in later : \A m \in later : j <= m
+                 ordered == SetToSortSeq(starts, LAMBDA a, b : a < b)
+             IN [x \in 1..Len(ordered) |-> SubSeq(bs, ordered[x], nxt(ordered[x]) - 1)]
+RECURSIVE ObfLabels(_)
+ObfLabels(kids) == Concat([i \in 1..Len(kids) |-> (IF kids[i].obf # <<>> THEN <<kids[i].obf>> ELSE <<>>) \o ObfLabels(kids[i].kids)])
+BagOf(seq) == {<<c, Cardinality({i \in 1..Len(seq) : seq[i] = c})>> : c \in {seq[i] : i \in 1..Len(seq)}}
+ObfCountsIntended(kids) == BagOf(ObfLabels(kids))
+ObfCountsAsCoded(kids) == LET ls == ObfLabels(kids) IN BagOf(Concat([i \in 1..Len(ls) |-> Chars(ls[i])]))
 =============================================================================
